@@ -133,7 +133,20 @@ func checkSerial(o geojson.Object, typ string, depth int) (what, exp, got string
 			what, exp, got = "panic", "no panic", fmt.Sprint(r)
 		}
 	}()
-	ref := o.AppendJSON(nil)
+	// the first serialisation goes into a buffer the caller keeps and re-uses:
+	// the object must not hold on to any part of it
+	first := o.AppendJSON(make([]byte, 0, 96))
+	ref := append([]byte(nil), first...)
+	poison := func(b []byte) {
+		b = b[:cap(b)]
+		for i := range b {
+			b[i] = 0xEE
+		}
+	}
+	poison(first)
+	if r2 := o.AppendJSON(nil); !bytes.Equal(r2, ref) {
+		return "changed-after-buffer-reuse", string(ref), string(r2)
+	}
 	if s := o.JSON(); s != string(ref) {
 		return "JSON!=AppendJSON(nil)", string(ref), s
 	}
@@ -142,6 +155,8 @@ func checkSerial(o geojson.Object, typ string, depth int) (what, exp, got string
 	}
 	if m, err := o.MarshalJSON(); err != nil || !bytes.Equal(m, ref) {
 		return "MarshalJSON!=AppendJSON(nil)", string(ref), fmt.Sprintf("%s err=%v", m, err)
+	} else {
+		poison(m) // the returned slice is the caller's
 	}
 	prefixes := [][]byte{nil, {}, []byte("x"), bytes.Repeat([]byte("0123456789"), 10)}
 	for _, p := range prefixes {
@@ -159,7 +174,11 @@ func checkSerial(o geojson.Object, typ string, depth int) (what, exp, got string
 			if len(out) != len(p)+len(ref) || !bytes.Equal(out[:len(p)], p) || !bytes.Equal(out[len(p):], ref) {
 				return fmt.Sprintf("append(prefix=%d,spare=%d)", len(p), spare), string(p) + string(ref), string(out)
 			}
+			poison(out)
 		}
+	}
+	if s := o.JSON(); s != string(ref) {
+		return "changed-after-buffer-reuse", string(ref), s
 	}
 	jv, err := refdoc.ParseJSON(string(ref))
 	if err != nil {
@@ -205,7 +224,7 @@ func c17Base(n int) []float64 {
 }
 
 func runC17(r *rt.Run) {
-	r.Rule = "every public constructor x float alphabet {NaN, +-Inf, -0, 0, 1.5, -1e-7, 1e21, 5e-324, MaxFloat64} at every ordinate position (<= 2 special values per object, every pair of positions) ; NewFeature x 16 member texts x 13 geometries, nested 3 deep; degenerate constructor arguments; parsed seed documents; each x 4 prefixes x 4 spare capacities with a sentinel-filled spare region; non-trivial = object with at least one special float or non-empty member text"
+	r.Rule = "every public constructor x float alphabet {NaN, +-Inf, -0, 0, 1.5, -1e-7, 1e21, 5e-324, MaxFloat64} at every ordinate position (<= 2 special values per object, every pair of positions) ; NewFeature x 16 member texts x 13 geometries, nested 3 deep; degenerate constructor arguments; parsed seed documents; each x 4 prefixes x 4 spare capacities with a sentinel-filled spare region, every buffer handed out or filled by the object overwritten afterwards (the first serialisation goes into a caller-owned buffer) and the object serialised again; non-trivial = object with at least one special float or non-empty member text"
 	r.Assume = []string{"well-formedness judged by verif/mc/refdoc (encoding/json)"}
 	r.Bounds["floats"] = len(c17Floats)
 	r.Bounds["member_texts"] = len(c17Members)
@@ -333,6 +352,28 @@ func runC17(r *rt.Run) {
 			}
 		}
 	}
+	// NewFeature x member texts built from the string alphabet (every unit as a
+	// member key, alone and next to a "feature" member, which NewFeature strips)
+	{
+		units := docgen.StringUnits()
+		r.Bounds["newfeature_unit_member_texts"] = 3 * len(units)
+		for ui, u := range units {
+			for vi, m := range []string{`{"` + u + `":[1]}`, `{"feature":1,"` + u + `":true}`, `{"a":"` + u + `","feature":{"x":"` + u + `"},"` + u + `z":null}`} {
+				for gi, g := range geoms[:3] {
+					f := geojson.NewFeature(g, m)
+					w.States++
+					w.Evals++
+					w.Nontriv++
+					if what, exp, got := checkSerial(f, "Feature", 0); what != "" {
+						ui, vi, gi := ui, vi, gi
+						w.Fail("serial-feature-unit-"+what, func() (rt.Case, string, string) {
+							return rt.Case{Kind: "serial", Op: "NewFeatureUnit", X: map[string]string{"what": what, "unit": fmt.Sprint(ui), "variant": fmt.Sprint(vi), "geom": fmt.Sprint(gi)}}, exp, got
+						})
+					}
+				}
+			}
+		}
+	}
 	// objects obtained from Parse
 	seeds := append(append(docgen.Seeds(), floatSeeds()...), invalidSeeds()...)
 	seeds = append(seeds, docgen.LargeDocs()...) // buffer growth with thousands of positions / hundreds of children
@@ -386,6 +427,21 @@ func evalC17(c *rt.Case) (bool, string, string, error) {
 		}
 		depth := map[string]int{"Point": 1, "LineString": 2, "Polygon": 3, "MultiPoint": 2, "MultiLineString": 3, "MultiPolygon": 4}[typeOf(o)]
 		what, exp, got := checkSerial(o, typeOf(o), depth)
+		return what != "", exp, what + ": " + got, nil
+	}
+	if c.Op == "NewFeatureUnit" {
+		var ui, vi, gi int
+		fmt.Sscan(c.X["unit"], &ui)
+		fmt.Sscan(c.X["variant"], &vi)
+		fmt.Sscan(c.X["geom"], &gi)
+		units := docgen.StringUnits()
+		if ui >= len(units) || vi > 2 || gi > 2 {
+			return false, "", "", fmt.Errorf("bad indexes")
+		}
+		u := units[ui]
+		m := []string{`{"` + u + `":[1]}`, `{"feature":1,"` + u + `":true}`, `{"a":"` + u + `","feature":{"x":"` + u + `"},"` + u + `z":null}`}[vi]
+		t := c17Templates[gi]
+		what, exp, got := checkSerial(geojson.NewFeature(t.build(c17Base(t.nOrd)), m), "Feature", 0)
 		return what != "", exp, what + ": " + got, nil
 	}
 	if c.Op == "NewFeature" {
